@@ -23,8 +23,7 @@ func VH_C04_Steps() {
 	}
 	for i := 0; i < steps; i++ {
 		if !e.vhStep(i) {
-			verifrt.Reach("step-panicked") // crash freedom is C09-K3's obligation
-			return
+			return // crash freedom is C09-K3's obligation
 		}
 		verifrt.Reach("step-done")
 		before = e.checkChain("step", before, maxH)
